@@ -47,16 +47,19 @@ TECH_B = ('bounded stand-in (exhaustive enumeration against an independent brute
           '+ contract-based deductive verification of the first-order building blocks')
 NOTE_B = ('The core claim rests on graph theorems (Chickering labelling, Dor-Tarsi, Meek completeness) that are out of reach of first-order VCs here; '
           'it is decided only on the enumerated domain (bound stated in the evidence). Oracles in vkb/oracles.py share no code with sempler.')
-PROPS['C07'] = dict(level='exploration', functions=[U + 'is_consistent_extension', U + 'vstructures', U + 'skeleton', U + 'only_directed', U + 'is_dag'], bounded=['vkb.c07'], design='DESIGN.md §4 C07', technique=TECH_B, note=NOTE_B,
+PROPS['C07'] = dict(level='exploration', functions=[U + 'is_consistent_extension', U + 'vstructures', U + 'skeleton', U + 'only_directed', U + 'is_dag', U + 'mec', U + 'is_chain_graph', U + 'chain_graph'], bounded_only=[U + 'all_dags', U + 'chain_graph_MEC', U + 'dag_to_cpdag'], bounded=['vkb.c07'], design='DESIGN.md §4 C07', technique=TECH_B, note=NOTE_B,
                     claim='mec / all_dags / is_consistent_extension / chain shortcut are compared with a brute-force enumeration of Markov equivalence classes and consistent extensions on every DAG and every PDAG with acyclic directed part up to the stated bound (quick p<=4, thorough p<=5, chains to 12), incl. signed-weight inputs.')
-PROPS['C08'] = dict(level='exploration', functions=[], bounded=['vkb.c08'], design='DESIGN.md §4 C08', technique=TECH_B, note=NOTE_B,
+PROPS['C08'] = dict(level='exploration', functions=[U + 'pdag_to_cpdag'], bounded_only=[U + 'dag_to_cpdag', U + 'pdag_to_dag'], bounded=['vkb.c08'], design='DESIGN.md §4 C08', technique=TECH_B, note=NOTE_B,
                     claim='dag_to_cpdag / pdag_to_cpdag are compared entry-wise with the essential graph computed by brute force for every DAG / PDAG up to the bound; ValueError iff no extension exists.')
-PROPS['C09'] = dict(level='exploration', functions=[U + 'rule_1', U + 'rule_2', U + 'rule_3', U + 'rule_4'], bounded=['vkb.c09'], design='DESIGN.md §4 C09', technique=TECH_B, note=NOTE_B,
+PROPS['C09'] = dict(level='exploration', functions=[U + 'rule_1', U + 'rule_2', U + 'rule_3', U + 'rule_4', U + 'has_consistent_extension'], bounded_only=[U + 'pdag_to_dag'], bounded=['vkb.c09'], design='DESIGN.md §4 C09', technique=TECH_B, note=NOTE_B,
                     claim='pdag_to_dag / has_consistent_extension / maximally_orient are compared with the brute-force extension set of every PDAG up to the bound (soundness, completeness, unchanged extension set, inputs untouched).')
-PROPS['C10'] = dict(level='exploration', functions=[], bounded=['vkb.c10'], design='DESIGN.md §4 C10', technique=TECH_B, note=NOTE_B,
+PROPS['C10'] = dict(level='exploration', functions=[U + 'imec', U + 'pdag_to_icpdag', U + 'is_chain_graph'], bounded_only=[U + 'dag_to_icpdag', U + 'chain_graph_IMEC', U + 'all_dags'], bounded=['vkb.c10'], design='DESIGN.md §4 C10', technique=TECH_B, note=NOTE_B,
                     claim='imec / dag_to_icpdag / pdag_to_icpdag / chain shortcut are compared with the brute-force interventional class for every DAG x target set up to the bound.')
 PROPS['C15']['bounded'] = ['vkb.c15']
-PROPS['C15']['note'] += ' semi_directed_paths / separates / chain_component / ancestors / descendants / transitive_closure are decided by the bounded stand-in only (recursive / explicit-stack code).'
+PROPS['C15']['functions'] = LEAF_REL + [U + x for x in ('descendants', 'desc', 'ancestors', 'an', 'transitive_closure', 'chain_component', 'separates', 'only_undirected')]
+PROPS['C15']['bounded_only'] = [U + 'semi_directed_paths']
+PROPS['C15']['claim'] = 'pa/ch/neighbors/adj/na are proved equal to their set-builder definitions; descendants/desc/ancestors/an/transitive_closure are proved equal to directed reachability (reflexive for descendants, at least one edge for ancestors) via the closure laws of reach; chain_component is proved to be connectivity through undirected edges (BFS invariants + the induction principle of the closure); separates is proved to be true exactly when every semi-directed path (as enumerated by semi_directed_paths, whose own contract is checked by the bounded tier) from A to B meets S, ValueError iff the sets overlap. All for every square matrix / PDAG of any size.'
+PROPS['C15']['note'] += ' semi_directed_paths (explicit-stack DFS) is decided by the bounded stand-in only; termination of the recursive functions is assumed (acyclic directed part required). L-LFP: induction principle of the reflexive-transitive closure.'
 PROPS['C18'] = dict(level='exploration', functions=[], bounded=['vkb.c18'], design='DESIGN.md §4 C18', technique=TECH_B,
                     note='Greedy insertion always reaching the requested count needs a graph lemma that is not mechanised: bounded only.',
                     claim='add_edges / remove_edges are run on every DAG up to the bound (binary and signed), every count from 0 to one past the feasible maximum and several seeds: exact edge counts, sub/supergraph, acyclicity, ValueError exactly when infeasible, determinism, input untouched.')
@@ -64,7 +67,7 @@ LGM = 'sempler.lganm.'
 PROPS['C01'] = dict(level='proof', functions=[LGM + 'LGANM.sample', LGM + 'LGANM.__init__'], case_filter={LGM + 'LGANM.sample': {'population': True}}, bounded_only=[LGM + '_parse_interventions'], bounded=[], design='DESIGN.md §4 C01', technique=TECH,
                     note=NOTE + ' A-LINALG; L-UNITRI (I - W^T non-singular for a DAG) and L-GAUSS (the law of an acyclic linear-Gaussian SEM is N(mean, cov) with those moments) are cited, not mechanised. The contract of _parse_interventions is assumed at its call sites and checked only by the bounded tier.',
                     claim='LGANM.sample(population=True) is proved, for every model size, every do/noise/shift dict (tuple or scalar parameters, any overlap, {} or None), to work on parameters mu\', var\', W\' that are entry by entry the intervened ones (do overrides noise overrides shift; scalar = variance 0; do-targets lose their incoming edges) and to return mean, cov with (I-W\'^T) mean = mu\' and (I-W\'^T) cov (I-W\'^T)^T = diag(var\'); the model is not modified and the result is fresh.')
-ALL_CONTRACTED = sorted(set(LEAF_REL + STRUCT + TOPO + [U + 'rule_1', U + 'rule_2', U + 'rule_3', U + 'rule_4', U + 'is_consistent_extension', U + 'matrix_block', ND + '__init__', ND + 'marginal', ND + 'conditional', ND + 'regress', ND + 'mse', ND + 'sample',
+ALL_CONTRACTED = sorted(set(LEAF_REL + STRUCT + TOPO + [U + x for x in ('descendants', 'desc', 'ancestors', 'an', 'transitive_closure', 'chain_component', 'separates', 'mec', 'imec', 'is_chain_graph', 'chain_graph', 'pdag_to_cpdag', 'pdag_to_icpdag', 'has_consistent_extension')] + [U + 'rule_1', U + 'rule_2', U + 'rule_3', U + 'rule_4', U + 'is_consistent_extension', U + 'matrix_block', ND + '__init__', ND + 'marginal', ND + 'conditional', ND + 'regress', ND + 'mse', ND + 'sample',
                                                             G + 'dag_avg_deg', G + 'dag_full', G + 'intervention_targets', LGM + 'LGANM.__init__', LGM + 'LGANM.sample',
                                                             'sempler.noise.normal', 'sempler.noise.uniform', 'sempler.noise.laplace', 'sempler.noise.zero', 'sempler.functions.null']))
 PROPS['C13'] = dict(level='proof', functions=[G + 'dag_avg_deg', G + 'dag_full', G + 'intervention_targets', LGM + 'LGANM.__init__', LGM + 'LGANM.sample', ND + 'sample'],
